@@ -345,6 +345,8 @@ def build_tab(rec, ti, cid):
     acts = [{"k": "amb", "p": ps[i - 1], "q": ps[j - 1]} for (i, j) in pairs]
     us = sorted(rec["us"], key=lambda x: core.canon(x["u"]))
     acts.append({"k": "table", "ps": ps, "us": [render_uri(x["u"], th) for x in us]})
+    if SERVER["bin"]:
+        acts.append({"k": "server", "ps": ps})
     return {"id": cid, "acts": acts}
 
 
@@ -355,8 +357,11 @@ def eval_tab(rec, ti, case, res, T):
         return
     obs = res["obs"]
     T.ops += len(obs)
-    ps = case["acts"][-1]["ps"]
-    ustr = case["acts"][-1]["us"]
+    ti_ = [i for i, a in enumerate(case["acts"]) if a["k"] == "table"][0]
+    si_ = [i for i, a in enumerate(case["acts"]) if a["k"] == "server"]
+    srv = obs[si_[0]] if si_ else None
+    ps = case["acts"][ti_]["ps"]
+    ustr = case["acts"][ti_]["us"]
     if any("bad" in o for o in obs):
         if any(rec_shapes(p) for p in rec["ps"]):
             T.drift_note("table %s: a pattern with a known shape is rejected by the parser" % ps)
@@ -365,9 +370,9 @@ def eval_tab(rec, ti, case, res, T):
         return
     pairs = sorted(rec["pairs"], key=lambda pr: (pr["i"], pr["j"]))
     amb = {}
-    for pr, o in zip(pairs, obs):
+    for pr, o in zip(pairs, obs[:ti_]):
         amb[(pr["i"] - 1, pr["j"] - 1)] = (o, pr)
-    tab = obs[-1]
+    tab = obs[ti_]
     us = sorted(rec["us"], key=lambda x: core.canon(x["u"]))
     clash = False
     for x, r, u in zip(us, tab["res"], ustr):
@@ -399,6 +404,22 @@ def eval_tab(rec, ti, case, res, T):
         f8a = bool(unrep) and all(pr["f8a"] for (_, pr) in unrep)
         T.reject("ResolveUnique", "PlaneBuilder::build accepts %s although %r resolves to routes %s" % (ps, u, al),
                  ["F8a"] if f8a else [], ctx)
+    # the same law on the real server: ServerBuilder::build -> PlaneBuilder::build
+    if srv is not None and "accepted" in srv:
+        T.law("ResolveUnique(server)")
+        if srv["accepted"] and clash:
+            u, al = clash
+            unrep = [amb[(al[x], al[y])] for x in range(len(al)) for y in range(x + 1, len(al))
+                     if not (amb[(al[x], al[y])][0]["lr"] and amb[(al[x], al[y])][0]["rl"])]
+            f8a = bool(unrep) and all(pr["f8a"] for (_, pr) in unrep)
+            T.reject("ResolveUnique", "the server (ServerBuilder::build) accepts the routes %s although %r resolves to routes %s" % (ps, u, al),
+                     ["F8a"] if f8a else [], ctx)
+        flagged = sorted(srv["error"].split(": [", 1)[1].rstrip("]").split(", ")) if srv.get("error") and ": [" in srv["error"] else []
+        if srv["accepted"] != tab["accepted"] or (not srv["accepted"] and flagged != sorted(ps[i] for i in tab["amb"])):
+            T.drift_note("ServerBuilder::build(%s): accepted=%s %s; pairwise are_ambiguous gives accepted=%s ambiguous=%s" % (
+                ps, srv["accepted"], srv.get("error"), tab["accepted"], tab["amb"]))
+    elif srv is not None and "other_error" in srv:
+        T.drift_note("ServerBuilder::build(%s) fails with %s" % (ps, srv["other_error"]))
     # mechanism level
     for (i, j), (o, pr) in amb.items():
         if o["lr"] != pr["ambM"] or o["rl"] != pr["ambM"]:
@@ -486,6 +507,52 @@ def eval_str(rec, ti, case, res, T):
 
 KINDS = {"PAT": (build_pat, eval_pat), "TAB": (build_tab, eval_tab), "STR": (build_str, eval_str)}
 
+# ----------------------------------------------------------------------------- the harness binary
+
+SERVER = {"bin": None, "note": None}
+
+
+def build_route_harness(wd):
+    """h_core/route is built twice: plainly (core.build_harness; also relocates the harness for VERIF_REPO), then with
+    the optional dependency on swimos_server_app so that the `server` operation drives the real ServerBuilder /
+    PlaneBuilder.  The featured binary is copied into the work directory (another check building h_core would
+    relink target/debug/route without the feature).  If the server crate does not build, the check goes on without
+    the `server` operation and says so in the evidence."""
+    import shutil, subprocess
+    core.build_harness("h_core", "route")
+    t0 = time.time()
+    p = subprocess.run(["cargo", "build", "--offline", "-p", "h_core", "--bin", "route", "--features", "swimos_server_app"],
+                       cwd=core.HARNESS, env=core.cargo_env(), stdout=subprocess.PIPE, stderr=subprocess.STDOUT, text=True,
+                       timeout=3600)
+    if p.returncode != 0:
+        SERVER["bin"] = None
+        SERVER["note"] = "server binding unavailable (cargo build --features swimos_server_app failed): " + " | ".join(p.stdout.splitlines()[-5:])
+        core.log("[C18] " + SERVER["note"][:300])
+        core._built.discard(("h_core", "route"))
+        core.build_harness("h_core", "route")
+        return
+    dst = os.path.join(wd, "route_with_server")
+    shutil.copy2(core.harness_bin("route"), dst)
+    SERVER["bin"] = dst
+    core.log("[build] h_core route --features swimos_server_app ok in %.1fs" % (time.time() - t0))
+
+
+def run_cases(cases, wd, tag):
+    if not SERVER["bin"]:
+        return rp.run_cases("h_core", "route", cases, wd, tag=tag, strip=False)
+    import subprocess
+    inp, outp = os.path.join(wd, tag + ".in.ndjson"), os.path.join(wd, tag + ".out.ndjson")
+    core.write_ndjson(inp, cases)
+    with open(inp) as fin, open(outp, "w") as fout:
+        p = subprocess.run([SERVER["bin"]], stdin=fin, stdout=fout, stderr=subprocess.PIPE, text=True, timeout=3600,
+                           env=dict(os.environ, RUST_BACKTRACE="0"))
+    if p.returncode != 0:
+        raise core.ToolError("harness route exited %s:\n%s" % (p.returncode, p.stderr[-4000:]))
+    res = core.read_ndjson(outp)
+    if len(res) != len(cases):
+        raise core.ToolError("harness route answered %d of %d cases" % (len(res), len(cases)))
+    return res
+
 
 # ----------------------------------------------------------------------------- TLC configurations
 
@@ -565,7 +632,7 @@ def run_records(kind, recs, nthemes, wd, tag, T, salt):
     CH = 20000
     for lo in range(0, len(cases), CH):
         chunk = cases[lo:lo + CH]
-        results = rp.run_cases("h_core", "route", chunk, wd, tag="%s_%d" % (tag, lo // CH), strip=False)
+        results = run_cases(chunk, wd, "%s_%d" % (tag, lo // CH))
         for case, res, (rec, ti) in zip(chunk, results, meta[lo:lo + CH]):
             v0, k0 = T.violations, sum(x[0] for x in T.known.values())
             evaluate(rec, ti, case, res, T)
@@ -577,7 +644,7 @@ def run_records(kind, recs, nthemes, wd, tag, T, salt):
 
 def run(tier, out):
     wd = core.workdir(PROP)
-    core.build_harness("h_core", "route")
+    build_route_harness(wd)
     open_ids = {f["id"] for f in core.open_findings(PROP)}
     T = Tally(out, open_ids)
     salt = core.seed()
@@ -685,10 +752,14 @@ def run(tier, out):
     out.assumptions += [
         "strings are abstracted to symbols with the relations equal-raw / equal-after-decoding / URI-legal / empty; "
         "byte-level variety comes from %d hand-written themes, not from TLC" % len(THEMES),
-        "the loops of PlaneBuilder::build and Routes::find_route are modelled in Route.tla (Build, FindRoute) and executed "
-        "in the harness over the real RoutePattern functions; swimos_server_app itself is not linked",
+        "PlaneBuilder::build is exercised through the real ServerBuilder::build (operation `server`); Routes::find_route is "
+        "private to the server runtime: its loop (first pattern whose unapply_route_uri is Ok) is modelled in Route.tla "
+        "(FindRoute) and executed in the harness over the real RoutePattern::unapply_route_uri",
         "URIs handed to unapply are well-formed RouteUri texts (the RouteUri parser ignoring trailing garbage is outside the property)",
     ]
+    if SERVER["note"]:
+        out.notes.append(SERVER["note"])
+    out.add(server_binding=bool(SERVER["bin"]))
     core.log("[C18] %d cases, %d real operations, wall %.0fs" % (T.cases, T.ops, time.time() - t0))
 
 
@@ -698,8 +769,13 @@ def replay(path, out):
     wd = core.workdir(PROP + "_replay")
     obj = json.load(open(path))["replay"]
     kind, rec, ti, case = obj["kind"], obj["rec"], obj["theme"], obj["case"]
-    core.build_harness("h_core", "route")
-    res = rp.run_cases("h_core", "route", [case], wd, tag="replay", strip=False)[0]
+    if any(a["k"] == "server" for a in case["acts"]):
+        build_route_harness(wd)
+        if not SERVER["bin"]:
+            case = dict(case, acts=[a for a in case["acts"] if a["k"] != "server"])
+    else:
+        core.build_harness("h_core", "route")
+    res = run_cases([case], wd, "replay")[0]
     open_ids = {f["id"] for f in core.open_findings(PROP)}
     T = Tally(out, open_ids, record=False)
     KINDS[kind][1](rec, ti, case, res, T)
